@@ -47,6 +47,77 @@ Definition block_lines_ok (tags : string * string) (bl el : string) : bool :=
   && forallb (fun st => own_stage st tags || (stage_inert bl st && stage_inert el st)) all_stages
   && load_inert bl && load_inert el.
 
+(* ---------------------------------------------------------------- nested transition blocks *)
+Definition pst_tags : string * string := (stag "__TAG_PST_BEGIN__", stag "__TAG_PST_END__").
+Definition pet_tags : string * string := (stag "__TAG_PET_BEGIN__", stag "__TAG_PET_END__").
+Definition pgt_tags : string * string := (stag "__TAG_PGT_BEGIN__", stag "__TAG_PGT_END__").
+Definition state_keys : list string := map fst (state_table EmptyString).
+Definition event_keys : list string := map fst (event_table EmptyString).
+Definition cond_names : list string :=
+  ["ACTIONNAME"; "actionName"; "ACTION_NAME"; "GUARDNAME"; "guardName"; "GUARD_NAME";
+   "STATENAMEIFNEXTSTATE"; "stateNameIfNextState"; "STATE_NAME_IF_NEXT_STATE"; "NEXTSTATENAME"; "nextStateName"; "NEXT_STATE_NAME"].
+
+Definition not_be2 (tags : string * string) (s : string) : bool :=
+  negb (hasSpecificTag s (fst tags)) && negb (hasSpecificTag s (snd tags)).
+Definition inert (s : string) : bool := load_inert s && expand_inert s.
+Definition no_tags_of (keys : list string) (s : string) : bool := forallb (fun k => negb (contains (tagstr k) s)) keys.
+
+(* begin / end line of an inner block: recognised by the inner expander as begin resp. end, no parameter *)
+Definition inner_pair_ok (tags : string * string) (bl el : string) : bool :=
+  hasSpecificTag bl (fst tags) && negb (hasSpecificTag bl (snd tags)) && negb (hasDefault bl)
+  && negb (hasSpecificTag el (fst tags)) && hasSpecificTag el (snd tags).
+
+Definition the_tag (l : uline) : option (string * option string) :=
+  match filter is_tagseg l with [Tag n d] => Some (n, d) | _ => None end.
+Definition drop_default (l : uline) : uline := map (fun g => match g with Tag n _ => Tag n None | _ => g end) l.
+(* what the reference says of a line whose (single) tag names something the transition lacks *)
+Definition spec_absent (l : uline) : list string :=
+  match List.find is_tagseg l with
+  | Some (Tag _ (Some (String c x))) => [(RefExpand16.spaces (RefExpand16.count_lead_ws (render_line l)) ++ String c x ++ nl_str)%string]
+  | _ => []
+  end.
+
+(* a line of a per-transition block that mentions ONE of the names a transition may lack (with or without alternative
+   text) and otherwise consists of literal text: all the engine does with it when the name is absent is computed here *)
+Definition cond_line_ok (l : uline) : bool :=
+  match the_tag l with
+  | Some (n, d) =>
+      let s := render_line l in
+      existsb (String.eqb n) cond_names
+      && no_tags_of (state_keys ++ event_keys) s
+      && forallb (fun k => String.eqb k n || (negb (hasSpecificTag s (tagstr k)) && negb (contains (tagstr k) s))) cond_names
+      && hasSpecificTag s (tagstr n)
+      && String.eqb (removeDefault s) (render_line (drop_default l))
+      && list_eqb (trans_tail s) (spec_absent l)
+      && forallb (no_char (chr 60)) (spec_absent l)
+      && not_be2 pgt_tags s
+  | None => false
+  end.
+
+Definition gline_ok (l : uline) : bool :=
+  line_ok l && inert (render_line l) && not_be2 pet_tags (render_line l) && no_tags_of state_keys (render_line l)
+  && (forallb (closed_seg event_keys) l || cond_line_ok l).
+
+Definition eitem_ok (x : eitem) : bool :=
+  match x with
+  | ELine l => line_ok l && forallb (closed_seg event_keys) l && inert (render_line l) && not_be2 pet_tags (render_line l)
+               && no_tags_of state_keys (render_line l)
+  | EGuard ib ie gb =>
+      let bl := (ib ++ begin_line "PER_GUARDTRANSITION")%string in let el := (ie ++ end_line "PER_GUARDTRANSITION")%string in
+      inner_pair_ok pgt_tags bl el && inert bl && inert el && not_be2 pet_tags bl && not_be2 pet_tags el
+      && no_tags_of (state_keys ++ event_keys) bl && no_tags_of (state_keys ++ event_keys) el
+      && forallb gline_ok gb
+  end.
+
+Definition titem_ok (x : titem) : bool :=
+  match x with
+  | TLine l => line_ok l && forallb (closed_seg state_keys) l && inert (render_line l)
+  | TEvent ib ie body =>
+      let bl := (ib ++ begin_line "PER_EVENTTRANSITION")%string in let el := (ie ++ end_line "PER_EVENTTRANSITION")%string in
+      inner_pair_ok pet_tags bl el && inert bl && inert el && no_tags_of state_keys bl && no_tags_of state_keys el
+      && forallb eitem_ok body
+  end.
+
 Definition item16_ok (it : item16) : bool :=
   match it with
   | Text l => text_ok l
@@ -57,6 +128,9 @@ Definition item16_ok (it : item16) : bool :=
   | SigBlock ib ie body =>
       block_lines_ok sig_tags (ib ++ begin_line "PER_ACTION_SIGNATURE")%string (ie ++ end_line "PER_ACTION_SIGNATURE")%string
       && forallb (body_line_ok sig_keys) body
+  | TransBlock ib ie body =>
+      block_lines_ok pst_tags (ib ++ begin_line "PER_STATETRANSITION")%string (ie ++ end_line "PER_STATETRANSITION")%string
+      && forallb titem_ok body
   end.
 
 Definition in_grammar16 (t : template16) : bool :=
@@ -72,12 +146,20 @@ Definition block_wf {A} (tb : A -> nat -> list (string * string)) (items : list 
                           negb (isspace out) && negb (unmodelled out)) body)
     (enumerate_from 0 items).
 
+(* the names in the transition structure carry no '<' '>', a transition defines only tags of the four families *)
+Definition trans_wf (tr : list (string * string)) : bool :=
+  forallb (fun kv => existsb (fun n => String.eqb (fst kv) (tagstr n)) cond_names && no_lg (snd kv)) tr.
+Definition tps_wf (tps : list (string * list (string * list (list (string * string))))) : bool :=
+  forallb (fun se => forallb (fun kv => no_lg (snd kv)) (state_table (fst se))
+                     && forallb (fun et => forallb (fun kv => no_lg (snd kv)) (event_table (fst et)) && forallb trans_wf (snd et)) (snd se)) tps.
+
 Definition item16_wf (e : elements) (it : item16) : bool :=
   match it with
   | Text _ => true
   | Raw _ => true
   | Block k _ _ body => block_wf (table_of_kind k) (items_of e k) body
   | SigBlock _ _ body => block_wf sig_table (el_sigs e) body
+  | TransBlock _ _ _ => tps_wf (el_tps e)
   end.
 
 Definition wf_elements16 (t : template16) (e : elements) : bool := forallb (item16_wf e) t.
@@ -86,7 +168,7 @@ Definition wf_elements16 (t : template16) (e : elements) : bool := forallb (item
 Definition elements_of_model (m : smodel) : elements :=
   {| el_states := sm_states m; el_events := sm_events m; el_actions := sm_actions m; el_guards := sm_guards m;
      el_sigs := map snd (sm_actionsigs m);
-     el_structs := if_structs m; el_protos := if_protos m; el_msgs := if_msgs m |}.
+     el_structs := if_structs m; el_protos := if_protos m; el_msgs := if_msgs m; el_tps := sm_tps m |}.
 
 Definition engine16 (m : smodel) (dict : list (string * string)) (t : template16) : option string :=
   generate_file m dict [] (render16 t).
@@ -101,3 +183,11 @@ Definition ref16_rows (tt : list EngineSM.row) (structs protos msgs : list strin
   ref16 (elements_of (table_of tt) structs protos msgs) t.
 Definition wf16_rows (tt : list EngineSM.row) (structs protos msgs : list string) (t : template16) : bool :=
   wf_elements16 t (elements_of (table_of tt) structs protos msgs).
+
+(* equality test of two transition structures (used to evaluate sm_tps m = tps_of table on instances) *)
+Fixpoint list_eqb_by {A} (f : A -> A -> bool) (a b : list A) : bool :=
+  match a, b with [], [] => true | x :: r, y :: s => f x y && list_eqb_by f r s | _, _ => false end.
+Definition kv_eqb (a b : string * string) : bool := String.eqb (fst a) (fst b) && String.eqb (snd a) (snd b).
+Definition list_eqb_tps (a b : list (string * list (string * list (list (string * string))))) : bool :=
+  list_eqb_by (fun x y => String.eqb (fst x) (fst y)
+                 && list_eqb_by (fun u v => String.eqb (fst u) (fst v) && list_eqb_by (list_eqb_by kv_eqb) (snd u) (snd v)) (snd x) (snd y)) a b.
